@@ -188,6 +188,27 @@ def check(chk):
     ok = any(call_attr(c) == "_remove_event_handlers" for c in fp.calls()) and any(call_attr(c) == "_disable_credit_handlers" for c in fp.calls())
     chk.ob("TABLE-10", "free play removes the gates and the coin handlers", ok, fp.where(), construct=fp.ident, text="free play cleanup")
 
+    # coin / service / event-credit handlers: what _enable_credit_handlers registers, _disable_credit_handlers removes
+    eh = cr.methods["_enable_credit_handlers"]
+    dh = cr.methods["_disable_credit_handlers"]
+    chk.analysed(eh, dh)
+    sw_adds = [c for c in ast.walk(eh.node) if isinstance(c, ast.Call) and call_attr(c) in ("add_switch_handler_obj", "add_switch_handler")]
+    tracked = [c for c in ast.walk(eh.node) if isinstance(c, ast.Call) and call_attr(c) == "append" and src(c.func.value) == "self._switch_handlers"
+               and c.args and isinstance(c.args[0], ast.Call) and c.args[0] in sw_adds]
+    chk.ob("TABLE-10", "every coin / service switch handler is remembered for removal", bool(sw_adds) and len(tracked) == len(sw_adds), eh.where(),
+           detail="%d registered, %d remembered" % (len(sw_adds), len(tracked)), construct=eh.ident, text="switch handlers tracked")
+    rmk = [c for c in dh.calls() if call_attr(c) in ("remove_switch_handler_by_keys",) and c.args and src(c.args[0]) == "self._switch_handlers"]
+    chk.ob("TABLE-10", "free play removes the coin and service switch handlers", bool(rmk), dh.where(), construct=dh.ident, text="switch handlers removed")
+    ev_adds = {src(kwarg(c, "handler") or (c.args[1] if len(c.args) > 1 else None)) for c in ast.walk(eh.node)
+               if isinstance(c, ast.Call) and call_attr(c) == "add_handler"}
+    ev_rm = {src(c.args[0]) for c in dh.calls() if call_attr(c) == "remove_handler" and c.args}
+    chk.ob("TABLE-10", "free play removes the credit-event handlers it registered", bool(ev_adds) and ev_adds <= ev_rm, dh.where(),
+           detail="registered %s, removed %s" % (sorted(ev_adds), sorted(ev_rm)), construct=dh.ident,
+           text="credit event handlers not removed: %s" % sorted(ev_adds - ev_rm))
+    ecp = cr.methods["enable_credit_play"]
+    ok = any(call_attr(c) == "_enable_credit_handlers" for c in ecp.calls())
+    chk.ob("TABLE-10", "credit play registers the coin handlers", ok, ecp.where(), construct=ecp.ident, text="coin handlers registered")
+
     # ------------------------------------------------------------ DOM-38
     sw = cr.methods["_credit_switch_callback"]
     chk.analysed(sw)
@@ -266,6 +287,8 @@ def battery():
         # twins
         M("twin: cap via min()", CR, "            self.machine.variables.set_machine_var('credit_units', max_credit_units)\n            total_credit_units = max_credit_units\n", "            total_credit_units = max_credit_units\n            self.machine.variables.set_machine_var('credit_units', max_credit_units)\n", None),
         M("twin: log wording", CR, "            self.info_log(\"Max credits reached.\")", "            self.info_log(\"Max credits reached!\")", None),
+        M("credit events still add credits in free play", CR, "        self.machine.events.remove_handler(self._credit_event_callback)\n", "", "TABLE-10"),
+        M("service switch handler not remembered", CR, "            self._switch_handlers.append(self.machine.switch_controller.add_switch_handler_obj(\n                switch=switch,\n                callback=self._service_credit_callback))", "            self.machine.switch_controller.add_switch_handler_obj(\n                switch=switch,\n                callback=self._service_credit_callback)", "TABLE-10"),
     ]
 
 
